@@ -520,6 +520,10 @@ def make_config(rng, i, tier='quick', force=None):
                n_shell=int(rng.choice([1, 5, 30])), n_eff=int(rng.choice([100, 300, 600])),
                discard_at_end=bool(rng.random() < 0.5), toggles=int(rng.choice([0, 0, 1, 3])), resumes=int(rng.choice([0, 0, 1, 2])),
                neural_network_kwargs=dict(hidden_layer_sizes=(20, 10), max_iter=200))
+    # bounds with many ellipsoids inside the sampler: small minimum cluster size and eager splitting
+    r1, r2 = rng.random(), rng.random()
+    cfg['n_points_min'] = None if r1 < 0.65 else int([n_dim + 2, n_dim + 6, 12][int((r1 - 0.65) / 0.35 * 3) % 3])
+    cfg['split_threshold'] = 100 if r2 < 0.65 else [1.0, 5.0][int((r2 - 0.65) / 0.35 * 2) % 2]
     if cfg['n_batch'] == 1:
         cfg['n_live'] = 30
         cfg['n_eff'] = min(cfg['n_eff'], 100)
